@@ -262,6 +262,9 @@ func c10Scenarios(cfg runCfg) []Scenario {
 		if mix(cfg.seed, 1011, uint64(i))%40 == 0 {
 			fam = "goexit"
 		}
+		if mix(cfg.seed, 1011, uint64(i))%40 == 1 {
+			fam = "nested"
+		}
 		out = append(out, Scenario{Family: fam, Seed: mix(cfg.seed, 10, uint64(i))})
 	}
 	return out
@@ -427,6 +430,25 @@ func c10Run(t *testing.T, sc Scenario, res *Result) {
 			res.inc("fail_file_replay_runs")
 			res.count("brackets_in_fail_file_replay_runs", int64(len(rec.brackets)-before))
 		}
+	case "nested":
+		// a Check inside a property, with the enclosing *rapid.T as its TB: every invocation of the inner property
+		// is an invocation like any other (own context, cancelled when it returns; own cleanups)
+		setFlags(map[string]string{"rapid.checks": "4", "rapid.nofailfile": "true", "rapid.shrinktime": "0s", "rapid.seed": fmt.Sprint(sc.Seed%100000 + 1)})
+		inner := c10Body(rec, sc.Seed)
+		tb := newTB(fmt.Sprintf("C10n_%x", sc.Seed&0xffff))
+		runCheck(tb, func(ot *rapid.T) {
+			b := rec.begin("prop", "outer")
+			defer rec.bodyEnd(b, "outer")
+			rec.ctx(b, ot, "start of the outer property")
+			rec.register(b, ot, c10None, 0)
+			rapid.Uint8().Draw(ot, "outer")
+			rapid.Check(ot, inner)
+		})
+		detail["tb"] = tb.brief()
+		if tb.escaped != nil {
+			res.violate(sc, "c10/escape", fmt.Sprintf("panic escaped Check: %v", tb.escaped), detail)
+		}
+		res.inc("nested_check_scenarios")
 	case "goexit":
 		// the invocation ends by runtime.Goexit: the property calls Skip/FailNow of the ENCLOSING *testing.T
 		// inside rapid.Check (or MakeFuzz); its cleanups and context must still be wound up
